@@ -207,6 +207,10 @@ def with_all_years(spec):
     for tr in d.get("tr", []):
         for e in tr["e"].values():
             ys.update(e.get("t", []))
+    for entries in (d.get("iw") or {}).values():
+        for e in entries.values():
+            if isinstance(e, dict):
+                ys.update(e.get("t", []))
     d["years"] = sorted(float(y) for y in ys)
     return spec
 
